@@ -155,7 +155,12 @@ class SystemClock: public Clock {
     void syncNow(acetime_t epochSeconds) {
       if (epochSeconds == kInvalidSeconds) return;
       mLastSyncTime = epochSeconds;
-      if (mEpochSeconds == epochSeconds) return;
+      if (mEpochSeconds == epochSeconds) {
+        // The clock already reads 'epochSeconds', but the sub-second phase
+        // must still restart from this instant.
+        mPrevMillis = clockMillis();
+        return;
+      }
 
       mEpochSeconds = epochSeconds;
       mPrevMillis = clockMillis();
